@@ -82,33 +82,46 @@ def main():
     nopt = br.statuses.get("Optimal", 0)
     if nopt < 20:
         chk.machinery.append("only %d Optimal returns in the sweep: the KKT clause would be vacuous" % nopt)
-    # the flow-integration solver: result-level validation of every Optimal return
+    # the flow-integration solver: every run is recorded (loop tops with the residuum test, integrations, result) and
+    # validated by TLC against IntegrationLoop.tla / UserKKT
+    from harness.record_integration import TracedIntegrationSolver, events_of
     recs = []
-    params = Params(iteration_limit=200, rho=1e-2)
-    for (name, prob, x0, y0) in integration_cases(60 if chk.thorough else 10, chk.seed):
+    nint = 0
+    for k, (name, prob, x0, y0) in enumerate(integration_cases(60 if chk.thorough else 10, chk.seed)):
+        params = Params(iteration_limit=[200, 3, 1, 200][k % 4], rho=1e-2)
+        sol = TracedIntegrationSolver(prob, params)
         try:
-            res = IntegrationSolver(prob, params).solve(x0, y0)
+            res = sol.solve(x0, y0)
         except Exception as e:  # noqa: robustness of the second solver is not part of C01
             chk.case(("integration", name, "raise:" + type(e).__name__))
             continue
-        chk.case(("integration", name, res.status.name))
-        kkt = {"boundsExact": True, "rows": [], "vars": []}
-        if res.status == SolverStatus.Optimal:
-            kkt = oracle.kkt_classes(prob, None, params, res.x, res.y, res.d, rel_slack=1e-6)
-        recs.append({"solver": "integration", "name": name, "status": res.status.name, "kkt": kkt})
+        chk.case(("integration", name, res.status.name, int(res.iterations)))
+        evs = events_of(sol, res, prob, params)
+        for e in evs:
+            e["name"] = name
+        recs.extend(evs)
+        nint += 1
     if recs:
-        d = tempfile.mkdtemp(prefix="gf_kkt_")
+        d = tempfile.mkdtemp(prefix="gf_ig_")
         try:
-            path = os.path.join(d, "kkt.ndjson")
+            path = os.path.join(d, "ig.ndjson")
             with open(path, "w") as f:
                 for r in recs:
                     f.write(json.dumps(r) + "\n")
-            v = tlc.validate_trace(path, module="KKTTrace.tla", cfg="KKTTrace.cfg", envvar="KKT_TRACE")
+            v = tlc.validate_trace(path, module="IntegrationTrace.tla", cfg="IntegrationTrace.cfg", envvar="IG_TRACE")
             if v["last"] != v["total"]:
-                chk.machinery.append("KKTTrace consumed %d of %d" % (v["last"], v["total"]))
-            for (line, tag, name) in v["notes"]:
-                chk.kernel_violation(("integration.kkt", recs[line - 1]["name"]), recs[line - 1])
-            chk.traces += len(recs)
+                chk.machinery.append("IntegrationTrace consumed %d of %d" % (v["last"], v["total"]))
+            for (line, tag, cname) in v["notes"]:
+                r = recs[line - 1]
+                if tag == "P:C01":
+                    chk.kernel_violation(("integration." + cname, r["name"]), r)
+                elif tag == "M":
+                    chk.drift["integration." + cname] = chk.drift.get("integration." + cname, 0) + 1
+                else:
+                    chk.other_notes[tag + ":integration." + cname] = chk.other_notes.get(tag + ":integration." + cname, 0) + 1
+            chk.traces += nint
+            chk.cov["integration_events"] = len(recs)
+            chk.samples.append({"integration_trace_head": recs[:6]})
         except tlc.TLCFailure as e:
             chk.machinery.append(str(e)[-1200:])
         finally:
